@@ -315,6 +315,14 @@ def m_drop(ex, callee, args):
 @model(r'^<.* as (Into|From)<.*>>::(into|from)$')
 def m_into(ex, callee, args):
     v = args[0]
+    # a conversion the crate itself defines (`impl From<bool> for SolverResult`) is executed from its MIR
+    f = ex.prog.resolve_call(callee)
+    if f is None and '::into' in callee:
+        m_ = re.match(r'^<(.+) as Into<(.+)>>::into$', callee)
+        if m_:
+            f = ex.prog.resolve_call('<%s as From<%s>>::from' % (m_.group(2), m_.group(1)))
+    if f is not None:
+        return ex.call_mir(f, args)
     m = re.match(r'^<(\w+) as From<(\w+)>>::from$', callee) or None
     dst = src = None
     if m:
@@ -901,6 +909,31 @@ def m_cmp(ex, callee, args):
     if f is not None:
         return ex.call_mir(f, args)
     raise Unsupported('%s on %r, %r' % (callee, a, b))
+
+
+@model(r'^core::num::<impl (u8|u16|u32|u64|usize|i8|i16|i32|i64|isize)>::(count_ones|count_zeros|leading_zeros|trailing_zeros)$')
+def m_bit_counts(ex, callee, args):
+    a = deref_all(args[0])
+    bits, _signed = INT_TYPES[a.ty]
+    what = callee.rsplit('::', 1)[1]
+    if isinstance(a.v, int):
+        x = a.v & ((1 << bits) - 1)
+        r = {'count_ones': bin(x).count('1'), 'count_zeros': bits - bin(x).count('1'),
+             'leading_zeros': bits - x.bit_length(), 'trailing_zeros': (bits if x == 0 else (x & -x).bit_length() - 1)}[what]
+        return mk_int(r, 'u32')
+    x = a.v
+    if what in ('count_ones', 'count_zeros'):
+        ones = z3.BitVecVal(0, 32)
+        for i in range(bits):
+            ones = ones + z3.ZeroExt(31, z3.Extract(i, i, x))
+        return BV(z3.simplify(ones if what == 'count_ones' else z3.BitVecVal(bits, 32) - ones), 'u32')
+    r = z3.BitVecVal(bits, 32)
+    rng = range(bits) if what == 'leading_zeros' else range(bits - 1, -1, -1)
+    for i in rng:
+        # the highest (lowest) set bit decides
+        val = (bits - 1 - i) if what == 'leading_zeros' else i
+        r = z3.If(z3.Extract(i, i, x) == 1, z3.BitVecVal(val, 32), r)
+    return BV(z3.simplify(r), 'u32')
 
 
 def _fpv(a):
